@@ -271,6 +271,7 @@ def run(ctx: Ctx):
         col.ob("G1", "S2", f"{where}::error_rate(costs)", ok,
                f"error_rate is called with {kw}; --costs is documented as INS DEL SUB", rel, c.lineno, sample=kw)
     _per_utterance_divisors(ctx)
+    _inferred_length_nonnegative(ctx)
     plumbing(ctx, "S1")
     return dict(
         explanation=(
@@ -349,10 +350,55 @@ def _per_utterance_divisors(ctx: Ctx):
            f"data works", rel, bad[0].lineno if bad else f.line, sample=[u(n)[:80] for n, _ in sites])
 
 
+def _inferred_length_nonnegative(ctx: Ctx):
+    """S7: -1 marks a missing boundary in the (R, 3) token layout. The TextGrid worker infers the utterance length as the
+    maximum over the boundary columns; when every boundary is missing that maximum is the marker itself, and it is
+    multiplied by the frame shift: a negative xmax is written. The inferred length must be clamped at 0 or taken under a
+    test that some boundary is present (the docstring promises 'length 0 and a warning')."""
+    from sa.defuse import ReachingDefs
+    col, pkg = ctx.col, ctx.pkg
+    f = pkg.func("command_line::_torch_token_data_dir_to_textgrids_do_work")
+    rel = f.module.relname
+    pm = parent_map(f.node)
+    sites = []
+    for n in own_nodes(f.node):
+        if isinstance(n, ast.Assign) and isinstance(n.value, ast.Call) and isinstance(n.value.func, ast.Attribute) \
+                and n.value.func.attr == "max" and isinstance(n.value.func.value, ast.Subscript):
+            sub = n.value.func.value
+            if any(isinstance(x, ast.Slice) for x in (sub.slice.elts if isinstance(sub.slice, ast.Tuple) else [sub.slice])):
+                sites.append(n)
+    if len(sites) != 1:
+        raise AnalysisError(f"C17: expected one length inference from the boundary columns, found {len(sites)}")
+    n = sites[0]
+    base = u(n.value.func.value.value)
+    guarded = False
+    for t, pol in guards_of(pm, n):
+        for c in ast.walk(t):
+            cs = None
+            if isinstance(c, ast.Compare) and len(c.ops) == 1:
+                l, r, op = c.left, c.comparators[0], c.ops[0]
+                txt = u(c)
+                if base in txt and (("0" in (u(l), u(r))) or ("-1" in (u(l), u(r)))) and isinstance(op, (ast.GtE, ast.Gt, ast.LtE, ast.Lt, ast.NotEq)):
+                    guarded = True
+    clamped = False
+    tgt = n.targets[0]
+    if isinstance(tgt, ast.Name):
+        for m in own_nodes(f.node):
+            if isinstance(m, ast.Call) and (call_name(m) == "max" or (isinstance(m.func, ast.Attribute) and m.func.attr in ("clamp_min", "clamp"))) \
+                    and any(isinstance(x, ast.Name) and x.id == tgt.id for x in ast.walk(m)):
+                clamped = True
+    col.ob("G20", "S7", f"{rel}::_torch_token_data_dir_to_textgrids_do_work::inferred-length-is-not-the-missing-marker", guarded or clamped,
+           f"`{u(n)}` takes the utterance length from the boundary columns with no test that any boundary is present: for a "
+           f"transcript whose boundaries are all -1 (the default output of trn-to-torch-token-data-dir) --infer writes xmax = "
+           f"-frame_shift and an interval ending before it starts, which textgrids-to-torch-token-data-dir cannot read back",
+           rel, n.lineno)
+
+
 def _mutants():
     from selftest.mutate import Mutant as M
     C = "command_line.py"
     return [
+        M("length-from-missing-boundaries", "command_line.py", "elif has_segment_index and ref.size(0) and (ref[..., 1:] >= 0).any():", "elif has_segment_index:", "inferred-length-is-not-the-missing-marker"),
         M("per-utt-rate-divides-by-empty-reference", "command_line.py", "error_rates[utt_id] = er.item() / denom if denom else float(er.item() > 0)", "error_rates[utt_id] = er.item() / denom", "per-utterance-length-divisor-guarded"),
         M("id-slice-negative-zero", "command_line.py", "x[fpl:len(x) - fsl]", "x[fpl:-fsl]", "no-negative-zero-slice-bound"),
         M("endswith-prefix-again", C, "if x.startswith(options.file_prefix) and x.endswith(options.file_suffix))\n    os.makedirs(options.ali_dir",
